@@ -13,14 +13,17 @@ class Style:
     comments / blank: probability of inserting a comment / blank line before a directive
     keyword line (never directly after bare Description text, where it would be content);
     quote: probability of quoting a parameter that needs no quotes; parens: probability of
-    putting the children of a directive in explicit parentheses."""
+    putting the children of a directive in explicit parentheses; late: probability of writing the
+    URL-level Tags / Path of a URL block AFTER its methods (the last method is then closed by an
+    explicit parenthesis - otherwise the directives would belong to that method)."""
 
     def __init__(self, nl="\n", indent=IND, comments=0.0, blank=0.0, trailing=False, quote=0.0, parens=0.0,
-                 rnd=None, tabs_between=False):
+                 rnd=None, tabs_between=False, late=0.0):
         self.nl, self.indent = nl, indent
         self.comments, self.blank, self.trailing = comments, blank, trailing
         self.quote, self.parens, self.rnd = quote, parens, rnd
         self.tabs_between = tabs_between
+        self.late = late
 
     def flip(self, p):
         return p > 0 and self.rnd is not None and self.rnd.random() < p
@@ -142,9 +145,9 @@ class Out:
         """a parameter that needs no quotes, possibly quoted"""
         return '"%s"' % s if self.style.flip(self.style.quote) else s
 
-    def open(self, depth):
+    def open(self, depth, force=False):
         """children in explicit parentheses? returns True if opened"""
-        if self.style.flip(self.style.parens):
+        if force or self.style.flip(self.style.parens):
             self.line(depth, "(")
             return True
         return False
@@ -164,10 +167,15 @@ def q(s, style):
     return '"%s"' % s
 
 
-def desc_lines(o, depth, text):
+def desc_lines(o, depth, text, paren=False):
+    """paren: the text in explicit parentheses (needed when a ")" follows: bare text would swallow it)"""
     o.line(depth, "Description", "Description")
+    if paren:
+        o.line(depth, "(")
     for ln in text.split("\n"):
         o.line(depth + 1, ln, free_text=True)
+    if paren:
+        o.line(depth, ")")
 
 
 def render_spec(o, depth, kw, ann, spec, headers, hdr_body):
@@ -236,14 +244,15 @@ def tags_line(o, depth, tags):
     o.line(depth, "Tags " + " ".join(o.par(t) for t in tags), "Tags")
 
 
-def render_method(o, depth, m, with_path):
+def render_method(o, depth, m, with_path, force_parens=False):
     head = m["verb"] + ((" " + o.par(path_str(m["path"]))) if with_path else "")
     o.line(depth, head + annot(m["annot"]), m["verb"])
     d = depth + 1
     has_children = bool(m["desc"] or m["tags"] or m.get("pathdecl") or m["query"] or m["req"]["form"] != "none" or m["resps"])
-    op = has_children and o.open(depth)
+    op = (has_children or force_parens) and o.open(depth, force_parens)
     if m["desc"]:
-        desc_lines(o, d, m["desc"])
+        last = not (m["tags"] or m.get("pathdecl") or m["query"] or m["req"]["form"] != "none" or m["resps"] or m.get("extra"))
+        desc_lines(o, d, m["desc"], paren=bool(op) and last)
     if m["tags"]:
         tags_line(o, d, m["tags"])
     render_pathdecl(o, d, m.get("pathdecl") or [])
@@ -305,13 +314,19 @@ def render_block(o, b, depth=0):
     elif t == "url":
         o.line(depth, "URL " + o.par(path_str(b["path"])), "URL")
         op = o.open(depth)
-        if b["tags"]:
-            tags_line(o, depth + 1, b["tags"])
-        render_pathdecl(o, depth + 1, b["pathdecl"])
+        late = bool(b["methods"]) and (b.get("late") or o.style.flip(o.style.late))
+        if not late:
+            if b["tags"]:
+                tags_line(o, depth + 1, b["tags"])
+            render_pathdecl(o, depth + 1, b["pathdecl"])
         for x in b.get("extra_first") or []:
             render_block(o, x, depth + 1)
-        for m in b["methods"]:
-            render_method(o, depth + 1, m, False)
+        for k, m in enumerate(b["methods"]):
+            render_method(o, depth + 1, m, False, force_parens=late and k == len(b["methods"]) - 1)
+        if late:
+            if b["tags"]:
+                tags_line(o, depth + 1, b["tags"])
+            render_pathdecl(o, depth + 1, b["pathdecl"])
         for x in b.get("extra") or []:
             render_block(o, x, depth + 1)
         o.close(depth, op)
